@@ -12,10 +12,13 @@
       `ExternalReferenceForbidden` when its DOCTYPE only names an external subset — for EVERY entry point
       (`refuses_partial`, `refuses_explicit_partial`, `refuses_external_subset_partial`, `C13_full_partial`).
 
-  What is NOT proved (level: partial): the behaviour of defusedxml / expat itself (`ParserBehaviour`) and that the text
-  pre-processing in front of the parser (`__fixXmlPart`) leaves the DOCTYPE alone (`Prep`) — both are hypotheses,
-  validated on every run by the fault matrix / the pre-processing correspondence of harness/c13.py — and "never reads a local file or URL", which
+  What is NOT proved (level: partial): the behaviour of defusedxml / expat itself (`ParserBehaviour`), a hypothesis
+  validated on every run by the fault matrix of harness/c13.py, and "never reads a local file or URL", which
   is outside the model (a refused parse resolves nothing; the harness watches file and URL opens).
+  That the text pre-processing in front of the parser (`__fixXmlPart`) leaves the DOCTYPE alone is the parameter `Prep`
+  of the theorems of THIS file; Props/C13Prep.lean instantiates it with the character-level model of the function
+  (since /repo fix e859a9c the function looks for the document element behind the prolog; Props/C05.lean
+  `fix_prolog_untouched`) — `prepOfFix`, `C13_full_fix` — so it is no longer assumed.
 
   Full statement of the property in model terms: `C13_full`, proved for every assumed parser behaviour
   (`C13_full_partial`).  The external-subset refusal of the MoinMoin converter is CODE (`ODF2MoinMoin._parse` tests
